@@ -8,6 +8,36 @@ import os
 VERIF = os.path.dirname(os.path.dirname(os.path.abspath(__file__)))
 
 CHECKS = {
+    'C01': dict(
+        technique='decision-table extraction of one capture step folded over all small streams x chunkings; abstract interpretation of the inspector classes through their real eat_chunk/post_process/region_complete/finish code with only the capture arithmetic abstracted (symbolic region bytes; lazy path enumeration per image and chunk schedule), extracted verdict terms evaluated on image families and compared with reference decoders written from the format specifications (static: nothing from /repo is executed); schedule-independence of the verdict; region geometry',
+        category='other', design_ref='DESIGN.md section 4, C01',
+        text='Capture engine: the one-step table of eat_chunk on a region with symbolic offset/length/min_length/data/position is folded over every stream up to 6 (thorough 8) bytes x every chunking incl. empty chunks x every offset/length/window: retained bytes == stream bytes after every chunk. Orchestration: every inspector x image family x five chunk schedules (one chunk, region-after-defining-chunk, byte-count trickle through every length the class distinguishes, min_length stop, small-then-giant): complete/match/size/safety must not depend on the schedule. Regions defined while streaming must not start before data already consumed; tail windows must pre-exist; format queries between reads must not change feeding.',
+        note='The composition of the capture step with the orchestration is covered through the abstract capture model (a region eventually holds stream[offset:offset+n]); five genuine chunking dependences of the pinned tree are listed as known findings (F1a, F1b, F2, F3, F4).'),
+    'C02': dict(
+        technique='exhaustive decision-table extraction of the aggregator and of cli.main; abstract interpretation of the inspector classes through their real eat_chunk/post_process/region_complete/finish code with only the capture arithmetic abstracted (symbolic region bytes; lazy path enumeration per image and chunk schedule), extracted verdict terms evaluated on image families and compared with reference decoders written from the format specifications (static: nothing from /repo is executed)',
+        category='other', design_ref='DESIGN.md section 4, C02',
+        text="safety_check / SafetyCheck.__call__ for every combination of complete x match x per-check outcome (0..3 checks); every inspector's safety verdict on image families with every safe/unsafe trait of the property (64 feature bits in thorough, versions, backing offsets, descriptor line classes and createType spellings, MBR tables, footer perturbations, truncations) under five schedules vs the reference decoder; registered check sets; cli.main over detection x check outcomes.",
+        note='Reference decoders in sa/specs/formats.py are written from the public format descriptions and the property text; descriptor texts are bounded by the generated family.'),
+    'C03': dict(
+        technique='exhaustive decision-table extraction of InspectWrapper.formats/format with abstract inspectors; abstract interpretation of the inspector classes through their real eat_chunk/post_process/region_complete/finish code with only the capture arithmetic abstracted (symbolic region bytes; lazy path enumeration per image and chunk schedule), extracted verdict terms evaluated on image families and compared with reference decoders written from the format specifications (static: nothing from /repo is executed); registry check',
+        category='other', design_ref='DESIGN.md section 4, C03',
+        text="formats/format for every (complete, match) combination of three non-raw inspectors x allowed_formats subsets x finished or not, incl. inspectors that failed; every real inspector on every format's images, signature overlays, text/binary files and truncations under two schedules: format_match == reference signature test, format_match/complete never raise in any intermediate state, decided stays decided; ALL_FORMATS registry; detect_file_format closes the wrapper on every path.",
+        note='Library behaviour of open()/read() is not decided.'),
+    'C05': dict(
+        technique='proof obligations on the syntax tree and on all symbolically enumerated paths (who-writes, must-truncate on the extracted capture step, interval analysis of every constructed region length), plus concrete witnesses from the abstract streaming model on hostile images',
+        category='proof', design_ref='DESIGN.md section 4, C05',
+        text='O1-O7 discharged: region data/length/table writers, truncation on every path of each capture step, finite interval bound for every region constructed on any symbolic path of any inspector (constants, min() clamps, field widths), per-inspector sums within 1.5 MiB / 512 KiB, context_info truthful; hostile images (every length/count/offset field at boundary and maximal values, 3 MiB text/zero streams) observed after every chunk under five schedules.',
+        note='Assumes Python slice semantics and that nothing outside the package touches private attributes; symbolic loops unrolled once for the bound enumeration (region constructors do not depend on the iteration count).'),
+    'C06': dict(
+        technique='exhaustive decision-table extraction of InspectWrapper read/iteration with abstract inspectors following fault plans (static)',
+        category='other', design_ref='DESIGN.md section 4, C06',
+        text='Wrapper built through its constructor with ALL_FORMATS replaced by abstract inspectors: every single fault placement (inspector x chunk) exhaustively, pairs of faults, every expected_format (each name incl. one that is a substring of another, none, unknown), completeness/match flags of the expected inspector, file-like and iterator sources, format queries between reads; delivered chunks by identity, per-inspector feeding trace, cut-off point and propagated exception vs the trace the property prescribes.',
+        note='Behaviour of the wrapped source object is not decided.'),
+    'C07': dict(
+        technique='abstract interpretation of the inspector classes through their real eat_chunk/post_process/region_complete/finish code with only the capture arithmetic abstracted (symbolic region bytes; lazy path enumeration per image and chunk schedule), extracted verdict terms evaluated on image families and compared with reference decoders written from the format specifications (static: nothing from /repo is executed)',
+        category='other', design_ref='DESIGN.md section 4, C07',
+        text="virtual_size of every inspector on image families (declared sizes over each field's range incl. 2^63, 2^64-1; VHDX table padding up to 2047 entries, metadata placement, item offsets; VMDK descriptor lengths; ISO block sizes; truncations at structure boundaries) under five chunk schedules vs the reference decoder; after every chunk the size is 0 or final and the accessor does not raise.",
+        note='Sizes are checked on the generated grid, not for all 2^64 values; capture arithmetic is decided separately (C01).'),
     'C04': dict(
         technique='constant folding of the pattern tables, regex-tree shape and character-set algebra per template, extraction of mask_password as an ordered substitution term evaluated with the extracted patterns on generated messages (static extraction + table evaluation)',
         category='other', design_ref='DESIGN.md section 4, C04',
